@@ -745,6 +745,35 @@ example : dispatchF (semOf blogGraph) translate blogApp "/2009/12/x".toList = .h
 
 end Examples
 
+/-! ### dispatcher wrappers: the default dispatcher on a rewritten path -/
+
+/-- `VirtualHost(next_dispatcher=Dispatcher(), **domains)` -/
+def vhostDispatch (domains : List (List Char × List Char)) (domain : List Char) (tr : Name → Name) (app : App)
+    (pathInfo : List Char) : Outcome :=
+  dispatchWith tr app (vhostPath domains domain pathInfo)
+
+/-- `XMLRPCDispatcher(next_dispatcher=Dispatcher())` -/
+def xmlrpcDispatch (tr : Name → Name) (app : App) (pathInfo : List Char) : Outcome :=
+  dispatchWith tr app (patchedPath pathInfo)
+
+/-- Behind `VirtualHost` only exposed handlers are reachable, whatever the `Host` header and the prefix table,
+    and the arguments are a restored suffix of the *rewritten* path's segments. -/
+theorem C02_vhost_exposed_only {domains : List (List Char × List Char)} {domain : List Char}
+    {tr : Name → Name} {app : App} {pathInfo : List Char} {hd : NodeId} {args : List (List Char)}
+    (h : vhostDispatch domains domain tr app pathInfo = .handler hd args) :
+    app.g.exposed hd = true ∧
+    ∃ k, args = ((segments (vhostPath domains domain pathInfo)).drop k).map restore2F := by
+  obtain ⟨r, f, hr, hf, hh, ha, he, _⟩ := C02_args_restored h
+  obtain ⟨k, hk⟩ := C02_vpath_suffix hr
+  exact ⟨he, k, by rw [ha, hk]⟩
+
+theorem C02_xmlrpc_exposed_only {tr : Name → Name} {app : App} {pathInfo : List Char} {hd : NodeId}
+    {args : List (List Char)} (h : xmlrpcDispatch tr app pathInfo = .handler hd args) :
+    app.g.exposed hd = true ∧ ∃ k, args = ((segments (patchedPath pathInfo)).drop k).map restore2F := by
+  obtain ⟨r, f, hr, hf, hh, ha, he, _⟩ := C02_args_restored h
+  obtain ⟨k, hk⟩ := C02_vpath_suffix hr
+  exact ⟨he, k, by rw [ha, hk]⟩
+
 /-! ### the live `popargs`, probed on every run -/
 
 def probeGraph : Graph :=
